@@ -65,7 +65,7 @@ ASSUMPTIONS = [
 ]
 TRUSTED_BASE = ['reference model in vf/monitors/c22.py', 'COPY_TEST_SPECS table of the repository (cross-check only)', 'local filesystem of the sandbox']
 SHARDS = {'quick': 4, 'thorough': 16}
-TIMEOUT = {'quick': 600, 'thorough': 1800}
+TIMEOUT = {'quick': 900, 'thorough': 1800}
 FLOORS = {
     'model_specs_agree': 324, 'runs_success': 300, 'runs_error': 60, 'files_verified': 1000, 'multipart_files_verified': 150,
     'multipart_exact_multiple_verified': 20, 'outcome_classes': 4, 'modes_seen': 3,
